@@ -449,6 +449,32 @@ def skin_cases(h):
                 jl = ".".join(map(str, went["skinned"]["joints_local"])) or "-"
                 exp = ".".join(map(str, e["skinned"]["joints_local"])) or "-"
                 out.append("skin %s/%d/%d E2U %s U2E %s JOINTS %s EXPECT %s" % (h.id, k, p, e2u.replace(" ", ",") or "-", u2e.replace(" ", ",") or "-", jl, exp))
+    # at the final drain every peer — a client that joined through the snapshot included — holds, for every skinned entity,
+    # the joints and bind poses of its last writer
+    fin = [i for i, e in enumerate(h.events) if e["ev"] == "drain" and e.get("final")]
+    if fin and h.events[fin[-1]]["quiescent"]:
+        i = fin[-1]
+        lastph = {}
+        for idx, ph in phases:
+            lastph[ph["h"]] = ph
+        npeers = h.nclients + 1 + sum(1 for e in h.events if e["ev"] == "late_join" and e.get("ok"))
+        for hh, ph in lastph.items():
+            uuid = binds.get(hh)
+            wst = last_state(h, i, ph["writer"])
+            went = ent_of(wst, uuid) if wst and uuid else None
+            if not went or not went.get("skinned"):
+                continue
+            for p in range(npeers):
+                st = last_state(h, i, p)
+                if st is None or (p != 0 and st.get("client_state") != "Connected"):
+                    continue
+                e = ent_of(st, uuid)
+                if e is None or not e.get("skinned"):
+                    fails.append(("C16", "peer %d has no SkinnedMesh at the end" % p, {"phase": ph}))
+                elif e["skinned"]["joints"] != went["skinned"]["joints"]:
+                    fails.append(("C16", "peer %d: at the end the joints differ from the writer's (number, order or identity)" % p, {"phase": ph}))
+                elif e["skinned"]["poses"] != went["skinned"]["poses"]:
+                    fails.append(("C16", "peer %d: at the end the inverse bind poses differ from the writer's" % p, {"phase": ph}))
     return out, fails
 
 
